@@ -199,6 +199,15 @@ def check_C20(tier, seed):
             if o.startswith("HARNESS-PANIC") or r.endswith(":p") or r.endswith(",p") or ",p," in r:
                 failures.append((len(c), c, o, "the writer panicked under a fault script (%s profile): %s" % (prof, o[:200])))
     failures += wire.value_display_failures(prop)         # Display of a MetricValue, empty packed lists included
+    # constructors given an address argument that yields no address
+    from . import sock as sock_driver
+    try:
+        ue = common.run_harness("sock", ["UE"], shards=1)[0]
+    except common.CheckFailure as e:
+        ue = "HARNESS-PANIC " + str(e)[:200]
+    for pid, msg in sock_driver.judge("UE", ue):
+        if pid == prop:
+            failures.append((2, "UE", ue, msg))
     dist["writer_fault_histories"] = len(wcases)
     dist["queued_schedules"] = len(sched)
     if failures:
